@@ -18,7 +18,7 @@ B_WARN = ('C08',)
 
 
 def units(tier, seed):
-    us = cases.fault_units(tier, seed, with_prims=True, thorough_budget=60, two_pairs_all=False)
+    us = cases.fault_units(tier, seed, with_prims=True, thorough_budget=40, two_pairs_all=False)
     for u in us:
         u["seed"], u["tier"] = seed, tier
         if tier == "quick" and u["kind"] != "struct":
